@@ -425,6 +425,46 @@ func enumerate(visit func(idx int64, family string, nontrivial bool, mk func() I
 			})
 		}
 	}
+	// large irregular documents (up to 64 KiB): one very long position among
+	// thousands of others (first, middle, last), thousands of empty positions,
+	// square-ish shapes; a decoder must not multiply two lengths of the input
+	rep := func(item string, n int) string {
+		if n == 0 {
+			return ""
+		}
+		return strings.Repeat(item+",", n-1) + item
+	}
+	long := func(n int) string { return "[" + rep("1", n) + "]" }
+	join := func(parts ...string) string {
+		var o []string
+		for _, p := range parts {
+			if p != "" {
+				o = append(o, p)
+			}
+		}
+		return "[" + strings.Join(o, ",") + "]"
+	}
+	shapes := []string{
+		join(long(6000), rep("[]", 6000)),
+		join(rep("[]", 6000), long(6000)),
+		join(rep("[]", 3000), long(6000), rep("[]", 3000)),
+		join(long(6000), rep("[1,2]", 4000)),
+		join(rep("[1,2]", 4000), long(6000)),
+		join(rep(long(150), 150)),
+		join(long(20000), "[]"),
+		join(rep("[]", 20000)),
+		join(join(long(5000), rep("[]", 5000))),
+		join(join(join(long(5000), rep("[]", 5000)))),
+		join(join(long(3), rep("[1,2]", 3000)), join(long(3000), rep("[]", 3000))),
+	}
+	for _, t := range jsonTypes[:6] {
+		for si := range shapes {
+			t, si := t, si
+			emit("geojson-large", true, func() Input {
+				return Input{Dec: "geojson", Data: []byte("{" + t + `"coordinates":` + shapes[si] + "}")}
+			})
+		}
+	}
 	// --- Geometry values handed to FromGeoJSON
 	objCoords := []interface{}{nil, []float64{1, 2}, [][]float64{{1, 2}}, [][][]float64{{{1, 2}}}, []interface{}{1.0, 2.0}, []interface{}{1, 2}, []interface{}{1.0},
 		map[string]interface{}{}, "str", 3.5, []interface{}{[]interface{}{1.0, 2.0}}, []interface{}{[]float64{1, 2}}, []interface{}{[]interface{}{[]interface{}{1.0, 2.0}}},
@@ -653,7 +693,7 @@ func main() {
 	}
 	os.Setenv("VERIF_TIER", tier)
 	r := report.New("C07", tier, "fault_enumeration")
-	r.Rule = "E4: for every valid WKB encoding of the bounded structure-tree corpus (both byte orders): every prefix, every single-bit flip, every count field <- {0,n-1,n+1,2^8,2^16,2^24,2^28,2^31,2^32-1}, every inflated count combined with a truncation at every later offset (double fault), every type code <- 25 foreign values and 1..7, every byte-order flag <- {flipped,2,0xff}; the structural faults again through the hex decoder plus odd length / non-hex character at every position; all byte strings of length <=2, all (order byte, type code) headers, nine-byte inflated-count messages, 31..300 real members behind an inflated count, collections nested to depth 1..64,128,1024,7281; GeoJSON: 12 type spellings x all JSON values of depth<=3(4) over 6 leaves, every prefix of every valid document, deep nesting, typed Geometry values and nil. Oracle: no panic, exactly one of geometry/error, bytes allocated (exact TotalAlloc delta in a single-goroutine worker) <= 256*len+64KiB, success => re-encode/decode fixed point. Non-trivial = every faulted (non-valid-corpus) input."
+	r.Rule = "E4: for every valid WKB encoding of the bounded structure-tree corpus (both byte orders): every prefix, every single-bit flip, every count field <- {0,n-1,n+1,2^8,2^16,2^24,2^28,2^31,2^32-1}, every inflated count combined with a truncation at every later offset (double fault), every type code <- 25 foreign values and 1..7, every byte-order flag <- {flipped,2,0xff}; the structural faults again through the hex decoder plus odd length / non-hex character at every position; all byte strings of length <=2, all (order byte, type code) headers, nine-byte inflated-count messages, 31..300 real members behind an inflated count, collections nested to depth 1..64,128,1024,7281; GeoJSON: 12 type spellings x all JSON values of depth<=3(4) over 6 leaves, every prefix of every valid document, deep nesting, 11 large irregular coordinate shapes of 30..60 KiB (one very long position among thousands, thousands of empty positions, square shapes) per type, typed Geometry values and nil. Oracle: no panic, exactly one of geometry/error, bytes allocated (exact TotalAlloc delta in a single-goroutine worker) <= 256*len+64KiB, success => re-encode/decode fixed point. Non-trivial = every faulted (non-valid-corpus) input."
 	r.Assumptions = []string{"single faults (plus the count+truncation double fault); inputs are derived from the corpus or from the listed synthetic families", "allocation bound constants 256 B/byte + 64 KiB chosen with >= 4x head-room over the valid corpus (max ratio reported as max_alloc_ratio)"}
 	sum := fault.Sweep(r, 16, 4<<20, 90*time.Second, func(idx int64) (string, interface{}) {
 		var sig string
